@@ -805,33 +805,38 @@ theorem image_level_last {α} (pl : Placed α) (f : Nat) (h : AbsentAt pl f) (hs
 nothing it contains came from a per-frame item (`applies_to_all_frames`); for images whose functional groups
 are placed uniformly this never changes a frame. -/
 theorem frames_eq_frame {ρ μ ω β} (im : Meta ρ μ ω) (useRw useMod useVoi : Bool) (apply : Found ρ μ ω → Nat → β)
-    (n : Nat) (fs : List Nat) (h0 : 0 < n) (hfs : ∀ f ∈ fs, f < n)
+    (n : Nat) (fs : List Nat) (hfs : ∀ f ∈ fs, f < n)
     (h1 : Uniform im.rwvm n) (h2 : Uniform im.rescale n) (h3 : Uniform im.window n) :
     getFrames im useRw useMod useVoi apply fs = fs.map (getFrame im useRw useMod useVoi apply) := by
   unfold getFrames getFrame
-  apply List.map_congr_left
-  intro f hf
-  have hfn := hfs f hf
-  by_cases hall : (discover im useRw useMod useVoi 0).all = true
-  · simp only [hall, ↓reduceIte]
-    suffices discover im useRw useMod useVoi f = discover im useRw useMod useVoi 0 by rw [this]
-    unfold discover at hall ⊢
-    cases hr : (if useRw then im.rwvm.find 0 else none) with
-    | some x =>
-      obtain ⟨r, sh⟩ := x
-      rw [hr] at hall
-      simp only at hall
-      have : (if useRw then im.rwvm.find f else none) = (if useRw then im.rwvm.find 0 else none) :=
-        opt_find_stable _ useRw n f h1 h0 hfn (by rw [hr]; exact hall)
-      rw [this, hr]
-    | none =>
-      rw [hr] at hall
-      have hrf : (if useRw then im.rwvm.find f else none) = none := by
-        rw [opt_find_stable _ useRw n f h1 h0 hfn (by rw [hr]), hr]
-      rw [hrf]
-      simp only [Bool.and_eq_true] at hall ⊢
-      rw [opt_find_stable _ useMod n f h2 h0 hfn hall.1, opt_find_stable _ useVoi n f h3 h0 hfn hall.2]
-  · simp [hall]
+  cases fs with
+  | nil => rfl
+  | cons f0 rest =>
+    have h0 : f0 < n := hfs f0 (by simp)
+    simp only []
+    apply List.map_congr_left
+    intro f hf
+    have hfn := hfs f hf
+    by_cases hall : (discover im useRw useMod useVoi f0).all = true
+    · simp only [hall, ↓reduceIte]
+      suffices discover im useRw useMod useVoi f = discover im useRw useMod useVoi f0 by rw [this]
+      unfold discover at hall ⊢
+      cases hr : (if useRw then im.rwvm.find f0 else none) with
+      | some x =>
+        obtain ⟨r, sh⟩ := x
+        rw [hr] at hall
+        simp only at hall
+        have : (if useRw then im.rwvm.find f else none) = (if useRw then im.rwvm.find f0 else none) :=
+          opt_find_stable _ useRw n f f0 h1 h0 hfn (by rw [hr]; exact hall)
+        rw [this, hr]
+      | none =>
+        rw [hr] at hall
+        have hrf : (if useRw then im.rwvm.find f else none) = none := by
+          rw [opt_find_stable _ useRw n f f0 h1 h0 hfn (by rw [hr]), hr]
+        rw [hrf]
+        simp only [Bool.and_eq_true] at hall ⊢
+        rw [opt_find_stable _ useMod n f f0 h2 h0 hfn hall.1, opt_find_stable _ useVoi n f f0 h3 h0 hfn hall.2]
+    · simp [hall]
 
 /-- **Counterexample at width 1** (open finding C06-linear-width-one).  At w = 1 the window function as written
 divides by w - 1 = 0.  Over `Rat` (x / 0 = 0) the translated formula returns the lower output value for a pixel
